@@ -36,4 +36,22 @@ CHECKS = {
                 "(a test, not a proof). qha and scipy are external. Known finding: interpolator 'hermite' cannot run.",
         "technique": "Lean 4 theorems on translated expression trees (real analysis + decide over an abstract IEEE domain) + end-to-end sweep oracle",
     },
+    "C01": {
+        "text": "Model of nonshear.py at R proved equal to A/(5e^2)+P_ph/(3e) and A/(15e_ie_j)+(P-P_static), with P_ph = -dF_ph/dV and "
+                "A = V d2F_ph/dV2 - P_ph (Mathlib deriv), for arbitrary lists of q-points, modes and weights, zero-point and thermal parts "
+                "separately, all T >= 0. Prefactor denominators are re-translated from nonshear.py every run. The same model at Float is "
+                "compared with the real classes on a stub calculator (rel 1e-9); a 40-digit mpmath differentiation of F_ph for analytic "
+                "spectra is compared with the real classes (rel 1e-7); unit constants are compared with CODATA (rel 1e-8).",
+        "note": COMMON_NOTE + "The oracle covers analytic omega(V) only; arbitrary arrays are covered by theorem plus correspondence. "
+                "0 < T < 20 K (exp overflow regime) belongs to C12.",
+        "technique": "Lean 4 HasDerivAt calculus + list induction; differential correspondence; mpmath oracle",
+    },
+    "C02": {
+        "text": "Model gap proved equal to T V (dP_ph/dT)^2/(9 e_i e_j C_V) for C_V != 0, with dP_ph/dT the deriv in T of -dF_ph/dV; >= 0 on "
+                "the diagonal and exactly 0 at T = 0 for arbitrary arrays; in the calculate-loop model shear keys agree in both result "
+                "stores for any task list. Correspondence at rel 1e-9; oracle = mpmath mixed derivative, plus all 21 keys through the real "
+                "PhononContributionTaskList with the 15 shear keys compared exactly.",
+        "note": COMMON_NOTE + "The task-loop model behind c02_shear_equal is tied to the code by the exact oracle check (and by C04's task-list correspondence).",
+        "technique": "Lean 4 HasDerivAt calculus + induction over task lists; differential correspondence; mpmath oracle",
+    },
 }
